@@ -30,6 +30,11 @@ def gen_bad(rng, npids, ncont, nformats):
     if method == "store_object":
         c = rng.randrange(ncont)
         args = [pid, {"data": c, "kind": "str"}, None, None, None, None]
+        if rng.random() < 0.4:
+            # valid-looking other arguments (possibly mismatching: irrelevant for a rejected call)
+            args[5] = _lit(rng.choice([1, 3, 10 ** 6]))
+        if rng.random() < 0.3:
+            args[2] = _lit(rng.choice(["sha224", "SHA-256", "blake2b"]))
         cands = [(0, _lit(rng.choice(WS_IDS[:-1])), "ValueError")]
         v, e = rng.choice(BAD_DATA)
         cands.append((1, _lit(v), e))
@@ -68,7 +73,9 @@ def gen_bad(rng, npids, ncont, nformats):
             bads = [(0, _lit(rng.choice(WS_IDS)), "ValueError"), (1, _lit(rng.choice(WS_IDS)), "ValueError")]
     elif method == "delete_if_invalid_object":
         c = rng.randrange(ncont)
-        args = [{"om": c}, {"checksum": c}, _lit("sha256"), _lit(None)]
+        # the other (valid) arguments vary too: a rejected call must change nothing whatever they say
+        args = [{"om": c}, rng.choice([{"checksum": c}, {"checksum": (c + 1) % ncont}, _lit("00ff")]),
+                _lit(rng.choice(["sha256", "md5", "SHA-512"])), _lit(rng.choice([None, None, 1, 2, 7, 10 ** 6]))]
         cands = [(0, _lit(rng.choice([None, "not-metadata", 5])), "ValueError"),
                  (1, _lit(rng.choice([None, "", "a b"])), "ValueError"),
                  (2, _lit(rng.choice([None, "", " "])), "ValueError"),
